@@ -320,13 +320,24 @@ func Solve(file string, tsec int, thorough bool) SolverResult {
 		name    string
 	}
 	specs := append([]solverSpec{ematchSolver}, solvers...)
-	ch := make(chan r, len(specs))
+	// second wave, started only when the first has no verdict after a few seconds: the same
+	// solvers with other random seeds (quantifier instantiation order is seed dependent; slow
+	// queries are the unstable ones)
+	var wave2 []solverSpec
+	for _, seed := range []int{3, 7, 11} {
+		seed := seed
+		wave2 = append(wave2, solverSpec{fmt.Sprintf("z3-new-seed%d", seed), func(f string, t int) []string {
+			return []string{"z3-new", fmt.Sprintf("-T:%d", t), fmt.Sprintf("smt.random_seed=%d", seed), fmt.Sprintf("sat.random_seed=%d", seed), f}
+		}})
+	}
+	wave2 = append(wave2, solverSpec{"z3-seed5", func(f string, t int) []string {
+		return []string{"z3", fmt.Sprintf("-T:%d", t), "smt.random_seed=5", f}
+	}})
+	ch := make(chan r, len(specs)+len(wave2))
 	cctx, cancel := context.WithCancel(ctx)
 	defer cancel()
-	for _, sp := range specs {
-		sp := sp
+	launch := func(sp solverSpec, t int) {
 		go func() {
-			t := tsec
 			if sp.name == ematchSolver.name && t > 3 {
 				t = 3
 			}
@@ -334,22 +345,39 @@ func Solve(file string, tsec int, thorough bool) SolverResult {
 			ch <- r{st, out, ms, sp.name}
 		}()
 	}
+	for _, sp := range specs {
+		launch(sp, tsec)
+	}
+	pending := len(specs)
+	var wave2At <-chan time.Time
+	if tsec > 6 {
+		wave2At = time.After(4 * time.Second)
+	}
 	var unsatR, satR *r
-	for range specs {
-		x := <-ch
-		x2 := x
-		res.All = append(res.All, fmt.Sprintf("%s:%s:%dms", x.name, x.st, x.ms))
-		// the e-matching-only configuration cannot produce trustworthy models
-		if x.st == "sat" && x.name != ematchSolver.name && satR == nil {
-			satR = &x2
-			if !thorough {
-				break
+loop:
+	for pending > 0 {
+		select {
+		case <-wave2At:
+			wave2At = nil
+			for _, sp := range wave2 {
+				launch(sp, tsec-4)
 			}
-		}
-		if x.st == "unsat" && unsatR == nil {
-			unsatR = &x2
-			if !thorough {
-				break
+			pending += len(wave2)
+		case x := <-ch:
+			pending--
+			x2 := x
+			res.All = append(res.All, fmt.Sprintf("%s:%s:%dms", x.name, x.st, x.ms))
+			// the e-matching-only configuration cannot produce trustworthy models
+			if x.st == "sat" && x.name != ematchSolver.name && satR == nil {
+				satR = &x2
+				if !thorough {
+					break loop
+				}
+			}
+			if x.st == "unsat" && unsatR == nil {
+				unsatR = &x2
+				// a proof is a proof: no need to wait for the slower solvers
+				break loop
 			}
 		}
 	}
